@@ -1633,9 +1633,11 @@ def idx_list_to_index_array(idx_list):
     """
     if len(idx_list) == 0:
         return None
-    elif len(idx_list) == 1:
+    elif len(idx_list) == 1 and idx_list[0]._src_shape is None:
         return idx_list[0].shaped_array()
     else:
+        # a single indexer is handled like a chain: a non-tuple int or index array into a
+        # multi-dimensional (non flat) source selects along the first axis
         idx = idx_list[0]
         arr = np.arange(shape_to_len(idx._src_shape)).reshape(idx._src_shape)
         for i in range(len(idx_list)):
